@@ -43,6 +43,86 @@ def gen_matmul(t, n, tier):
              unwind=N + 2, tier=tier)
 
 
+STEP_WHERE = ("interpreter", "src/interpreter.rs")
+STEP_LOG = 12
+
+
+def interpreter_initializer():
+    """the `Self { .. }` initializer of Interpreter::new, copied from the source (all fields and their cfg attributes), so that the
+    harness can build an Interpreter around an empty ProgramState without load_stdkinds / load_stdlib (hash-map population)"""
+    src = read_repo("src/interpreter/src/interpreter.rs")
+    m = re.search(r"pub fn new\(id: u64\) -> Self \{", src)
+    if not m:
+        raise SystemExit("INCONCLUSIVE: Interpreter::new not found")
+    i = src.index("    Self {", m.end())
+    j = src.index("{", i)
+    depth, k = 0, j
+    while True:
+        if src[k] == "{":
+            depth += 1
+        elif src[k] == "}":
+            depth -= 1
+            if depth == 0:
+                break
+        k += 1
+    return "Interpreter " + src[j:k + 1]
+
+
+STEP_PRELUDE = """
+  pub struct VpProbe { pub id: u8, pub log: Ref<[u8; %(L)d]>, pub pos: Ref<usize> }
+  impl MechFunctionImpl for VpProbe {
+    fn solve(&self) { let mut p = self.pos.borrow_mut(); if *p < %(L)d { self.log.borrow_mut()[*p] = self.id; } *p += 1; }
+    fn out(&self) -> Value { Value::Empty }
+    fn to_string(&self) -> String { String::new() }
+  }
+  #[cfg(feature = "compiler")]
+  impl MechFunctionCompiler for VpProbe { fn compile(&self, _ctx: &mut CompileCtx) -> MResult<Register> { unreachable!() } }
+  pub fn vp_random_state() -> ::std::hash::RandomState { unsafe { ::std::mem::transmute::<[u64; 2], ::std::hash::RandomState>([0x0123_4567_89ab_cdefu64, 0x0fed_cba9_8765_4321u64]) } }
+  pub fn vp_instant_now() -> ::std::time::Instant { unsafe { ::std::mem::zeroed() } }
+  pub fn vp_instant_elapsed(_i: &::std::time::Instant) -> ::std::time::Duration { ::std::time::Duration::ZERO }
+""" % {"L": STEP_LOG}
+
+
+def gen_step(tier):
+    """Interpreter::step(0, n) on a plan of 1-3 probe functions that log their solve() calls: the call sequence is the plan in order,
+    n times over, and equals the sequence of n requests for one step"""
+    L = STEP_LOG
+    init = interpreter_initializer()
+    b = ["let len: usize = kani::any(); kani::assume(len >= 1 && len <= 3);",
+         "let n: u64 = kani::any(); kani::assume(n <= 3);",
+         "let log = Ref::new([0u8; %d]); let pos = Ref::new(0usize);" % L,
+         "let state = ProgramState::new();",
+         "{ let mut j = 0; while j < len { state.plan.borrow_mut().push(Box::new(VpProbe { id: (j + 1) as u8, log: log.clone(), pos: pos.clone() })); j += 1; } }",
+         "let id: u64 = 0;",
+         "let mut it = %s;" % init,
+         "let r = it.step(0, n);",
+         "match r { Ok(v) => { forget(v); }, Err(e) => { forget(e); assert!(false, \"VP:step-rejected\"); } }",
+         "let first: [u8; %d] = *log.borrow(); let calls = *pos.borrow();" % L,
+         "assert!(calls == (n as usize) * len, \"VP:second-solve-differs:number-of-solve-calls\");",
+         "{ let mut k = 0; while k < %d { if k < calls { assert!(first[k] as usize == (k %% len) + 1, \"VP:second-solve-differs:plan-not-run-in-order-once-per-step\"); } k += 1; } }" % L,
+         "kani::cover!(n == 3 && len == 3, \"VP:reached-3x3\");",
+         "// n requests for one step",
+         "{ *log.borrow_mut() = [0u8; %d]; *pos.borrow_mut() = 0; }" % L,
+         "{ let mut q = 0; while q < n { match it.step(0, 1) { Ok(v) => { forget(v); }, Err(e) => { forget(e); assert!(false, \"VP:step-rejected\"); } } q += 1; } }",
+         "let second: [u8; %d] = *log.borrow();" % L,
+         "assert!(*pos.borrow() == calls, \"VP:second-solve-differs:n-single-steps-vs-one-request\");",
+         "{ let mut k = 0; while k < %d { assert!(first[k] == second[k], \"VP:second-solve-differs:n-single-steps-vs-one-request\"); k += 1; } }" % L,
+         "kani::cover!(true, \"VP:reached\");",
+         "forget(it);"]
+    h = H("c19_step_loop", "    " + "\n    ".join(b), STEP_WHERE, domain="accept", key="Interpreter::step/loop",
+          desc="Interpreter::step(0, n) over a plan of 1-3 logging probe functions, n <= 3 symbolic: every plan function is solved once per step, in "
+               "plan order, and n requests for one step produce the same sequence of solve() calls as one request for n steps",
+          functions=["Interpreter::step (src/interpreter/src/interpreter.rs), step_id == 0 path, profile = false, trace = false", "ProgramState::new", "Plan"],
+          bounds="plan length 1..3, n 0..3; plan functions are probes that log their calls (the equality of call sequences carries over to any functions)",
+          unwind=L + 2, tier=tier, assumptions=["profile == false and trace == false (the profiling path reads the clock and prints)"])
+    # RandomState::new -> fixed keys: the empty hash maps of ProgramState / Interpreter are only constructed, never probed
+    h.attrs = ["#[kani::stub(::std::time::Instant::now, vp_instant_now)]", "#[kani::stub(::std::time::Instant::elapsed, vp_instant_elapsed)]",
+               "#[kani::stub(::std::hash::RandomState::new, vp_random_state)]"]
+    from .c05 import SLICE as C05_SLICE
+    h.slice = C05_SLICE
+    return h
+
+
 def plan(tier, seed):
     hs = []
     libs = list(c01.OPS.keys())
@@ -66,12 +146,18 @@ def plan(tier, seed):
     hs.append(c03.gen(t, "MD", (2, 2), ("S",), (0,), "accept", "quick"))
     hs.append(c03.gen(t, "RD", (1, 3), ("V",), (2,), "accept", "quick"))
     hs.append(c03.gen(t, "MD", (2, 3), ("S", "S"), (0, 0), "accept", "thorough"))
+    # logical-mask reads: the kernels resize their output to the number of true bits, a second solve() must find it unchanged
+    hs.append(c03.gen_l1_mask(t, "1DVDb", "VD", (3, 1), (True, False, True), None, "quick"))
+    hs.append(c03.gen_l1_mask(t, "2DVDbA", "MD", (3, 2), (True, False, True), None, "quick"))
+    hs.append(c03.gen_l1_mask(t, "2DRRVBB", "MD", (2, 3), (True, True), (True, False, True), "thorough"))
+    hs.append(c03.gen_l1_mask(t, "2DSVDb", "MD", (2, 3), None, (False, True, True), "thorough"))
     hs.append(c04.gen(t, "RD", (1, 3), ("S",), (0,), "scalar", "accept", "quick"))
     hs.append(c04.gen(t, "MD", (2, 2), ("V",), (2,), "scalar", "accept", "thorough"))
     hs.append(c15.gen_int("excl", "u8", "accept", "quick"))
     hs.append(c15.gen_int("incl_step", "i16", "accept", "thorough"))
     hs.append(gen_matmul("u8", 2, "quick"))
     hs.append(gen_matmul("i64", 2, "thorough"))
+    hs.append(gen_step("quick"))
     for h in hs:
         h.name = h.name.replace("c01_", "c19_op_").replace("c03_", "c19_ix_").replace("c04_", "c19_as_").replace("c15_", "c19_rg_")
         h.key = "C19/" + h.key
@@ -79,15 +165,16 @@ def plan(tier, seed):
     pre.update(c03.plan(tier, seed)["incrate_prelude"])
     pre.update(c04.plan(tier, seed)["incrate_prelude"])
     pre[("matrix", "src/matmul.rs")] = "  use nalgebra::DMatrix;\n"
+    pre[STEP_WHERE] = STEP_PRELUDE
     return {
         "harnesses": hs,
         "incrate_prelude": pre,
         "tag_filter": r"VP:(resolve-differs|input-modified|second-solve-differs|source-modified|wrong-product).*",
         "explanation": "Kani/CBMC over the generated plan functions (operator, indexing, assignment and range kernels): solve, perturb the "
-                       "output cell, solve again - identical output, inputs untouched; the induction over the plan and the loop of "
-                       "Interpreter::step are read, not encoded",
+                       "output cell, solve again - identical output, inputs untouched; plus the loop of Interpreter::step itself over a plan of "
+                       "logging probe functions (n steps = n x one step, plan order); the induction over the plan is read, not encoded",
         "bounds": "same as the corresponding C01/C03/C04/C15 harnesses (shapes <= 2x3, all element values)",
-        "outside": ["plan construction and Interpreter::step itself", "hash-map iteration order across processes", "n single steps = one request "
-                    "for n steps (the `for _ in 0..step_count` loop)", "op-assignment accumulation"],
+        "outside": ["plan construction", "Interpreter::step with profile or trace on, and stepping a single plan entry (step_id > 0)", "hash-map iteration order across processes",
+                    "op-assignment accumulation"],
         "caps": {"quick_timeout": 900, "thorough_timeout": 1800, "heavy_jobs": 8, "heavy_rss_gb": 8},
     }
